@@ -7,7 +7,7 @@ use serde::{Deserialize, Serialize};
 use serde_json::json;
 
 use super::common::*;
-use crate::engine::{chunk, Failure, Prop, Stats, Tier, F};
+use crate::engine::{chunk, guarded, Failure, Prop, Stats, Tier, F};
 use crate::gen::{self, ParamSpec, Site, Times, PRAYER_NAMES};
 
 pub struct C09;
@@ -251,7 +251,7 @@ impl Prop for C09 {
                 all_prayers: (si + di as usize) % 5 == 0,
                 date: first + chrono::Duration::days(di as i64),
             };
-            self.check_inner(&c, st).map_err(|f| (c.clone(), f))?;
+            guarded(&c, || self.check_inner(&c, st))?;
         }
         Ok(())
     }
